@@ -1,24 +1,31 @@
 (* The binary32 instance of the C04 results (Proofs/RcbBalance.v). *)
 From Coupe Require Import Lib.Prelude Lib.SFloat Model.Rcb Proofs.SFOrder Proofs.RcbProofs
-  Proofs.RcbInst Proofs.RcbBalance.
+  Proofs.RcbInst Proofs.RcbBalance Proofs.F32Flocq.
 From Coq Require Import Floats.SpecFloat Permutation.
 Open Scope Z_scope.
 
-Lemma fin_valid32 x : is_finite x = true -> f32v x = true.
-Proof. destruct x; cbn; intros H; try discriminate; reflexivity. Qed.
-Lemma fin_inf32 x : is_finite x = true -> flt x f32_inf = true.
-Proof. destruct x as [s|s| |s m e]; cbn; intros H; try discriminate; try reflexivity; destruct s; reflexivity. Qed.
+Lemma f32_fin_finite x : f32_fin x = true -> is_finite x = true.
+Proof. unfold f32_fin. intros H. apply andb_true_iff in H. tauto. Qed.
+Lemma fin_valid32 x : f32_fin x = true -> f32v x = true.
+Proof. intros H. apply f32_fin_finite in H. destruct x; cbn in *; try discriminate; reflexivity. Qed.
+Lemma fin_inf32 x : f32_fin x = true -> flt x f32_inf = true.
+Proof.
+  intros H. apply f32_fin_finite in H.
+  destruct x as [s|s| |s m e]; cbn in *; try discriminate; try reflexivity; destruct s; reflexivity.
+Qed.
 Lemma inf_valid32 : f32v f32_inf = true.
 Proof. reflexivity. Qed.
 
-(* The two facts about the midpoint expression the balance proof relies on.
-   They are true of `min / 2.0 + max / 2.0` on finite binary32 values but are
-   NOT proved here for SpecFloat (that needs Flocq's real-number lemmas):
-   they stay an explicit premise of the C04 theorem. *)
+(* The two facts about the midpoint expression the balance proof relies on,
+   as a predicate; proved for binary32 `min / 2.0 + max / 2.0` in
+   Proofs/F32Flocq.v (mid_fin32, mid_exhausted32). *)
 Definition MidSpec (m : spec_float -> spec_float -> spec_float) : Prop :=
-  (forall a b, is_finite a = true -> is_finite b = true -> is_finite (m a b) = true)
-  /\ (forall a b x, is_finite a = true -> is_finite b = true -> is_finite x = true ->
+  (forall a b, f32_fin a = true -> f32_fin b = true -> f32_fin (m a b) = true)
+  /\ (forall a b x, f32_fin a = true -> f32_fin b = true -> f32_fin x = true ->
         negb (flt a (m a b) && flt (m a b) b) = true -> flt a x = true -> flt x b = true -> False).
+
+Theorem mid_spec32 : MidSpec (f32_mid true).
+Proof. split; [exact mid_fin32|exact mid_exhausted32]. Qed.
 
 Definition head_variant : variant := mkvariant false true true true.
 
@@ -33,7 +40,7 @@ Qed.
 
 Lemma box_ok_sound : forall bb a0 its, box_ok_from a0 bb its = true ->
   forall a mn mx, nth_opt bb a = Some (mn, mx) ->
-    is_finite mn = true /\ is_finite mx = true
+    f32_fin mn = true /\ f32_fin mx = true
     /\ forall it c, In it its -> nth_opt (co it) (a0 + a) = Some c -> flt c mn = false /\ flt mx c = false.
 Proof.
   induction bb as [|[mn0 mx0] t IH]; intros a0 its H a mn mx Hn; [destruct a; discriminate|].
@@ -49,16 +56,14 @@ Qed.
 
 Notation BalT tol := (BalTree spec_float flt (tol_test tol)).
 
-(* C04 for the search at HEAD, every schedule and fuel: PARTIAL -- the premise
-   MidSpec is not discharged for SpecFloat, and box_ok32 is a decidable premise
-   evaluated by the run glue on every case *)
+(* C04 for the search at HEAD, every schedule and fuel.  box_ok32 is a decidable
+   premise evaluated by the run glue on every case *)
 Theorem rcb_split_balanced : forall fuel sched D k tol pts ws p0 p,
-  MidSpec (f32_mid true) ->
   contract pts ws -> box_ok32 D pts ws = true ->
   rcb head_variant fuel sched D k tol pts ws p0 = Ok p ->
   exists t, Permutation t (combine (combine (to32 pts) ws) p) /\ BalT tol D k 0%nat t.
 Proof.
-  intros fuel sched D k tol pts ws p0 p [Hmf Hme] [Hfin Hnn] Hbox H. unfold rcb in H.
+  intros fuel sched D k tol pts ws p0 p [Hfin Hnn] Hbox H. destruct mid_spec32 as [Hmf Hme]. unfold rcb in H.
   destruct (Nat.eqb (length ws) (length p0)) eqn:E1; cbn [negb] in H; [|discriminate].
   destruct (Nat.eqb (length pts) (length p0)) eqn:E2; cbn [negb] in H; [|discriminate].
   apply Nat.eqb_eq in E1, E2.
@@ -70,13 +75,16 @@ Proof.
     assert (Hlen : length pts = length ws) by lia.
     cbn [v_safe_mid v_old v_by_coord v_probe_max head_variant] in H.
     pose proof (rcb_core_balanced spec_float flt fle (f32_mid true) f32_sub f32_add f32_zero f32_inf
-                  (tol_test tol) f32v is_finite flt_irrefl flt_negtrans flt_trans fle_flt
+                  (tol_test tol) f32v f32_fin flt_irrefl flt_negtrans flt_trans fle_flt
                   inf_valid32 fin_valid32 fin_inf32 Hmf Hme
                   fuel sched D k (mk_items 0 pts ws) (sumZ ws) bb p0 p) as T.
     rewrite (mk_items_co pts ws 0%nat Hlen), (mk_items_wt pts ws 0%nat Hlen) in T. apply T.
     + rewrite Forall_forall. intros it Hit. unfold fitem. split.
       * assert (Hc : In (co it) (to32 pts)) by (rewrite <- (mk_items_co pts ws 0%nat Hlen); apply in_map, Hit).
-        rewrite Forall_forall in Hfin. exact (Hfin _ Hc).
+        rewrite Forall_forall in Hfin. specialize (Hfin _ Hc). rewrite Forall_forall in *. intros c Hcc.
+        unfold f32_fin. rewrite (Hfin c Hcc), andb_true_r.
+        unfold to32 in Hc. apply in_map_iff in Hc. destruct Hc as (p64 & Ep & _). rewrite <- Ep in Hcc.
+        apply in_map_iff in Hcc. destruct Hcc as (c64 & Ec & _). rewrite <- Ec. apply f64_to_f32_valid.
       * assert (Hw : In (wt it) ws) by (rewrite <- (mk_items_wt pts ws 0%nat Hlen); apply in_map, Hit).
         rewrite Forall_forall in Hnn. exact (Hnn _ Hw).
     + intros a mn mx Hn. exact (box_ok_sound bb 0%nat _ Hbox a mn mx Hn).
